@@ -277,14 +277,14 @@ def rb_built_objects_well_formed(ctx):
                      "VariantInterval": lambda: it.apply(ClassTok("VariantInterval"), [lo, hi, "A", "x"], {}, None, 0),
                      "AnnotationCollection": lambda: mk_collection(it, [mk_gene(it, [tx])], None, start=lo, end=hi)}[kind]()
             except Raised as ex:
-                r.violation("C19.RB", q, f"[{lo},{hi}) accepted", f"{kind} over the valid interval [{lo},{hi}) is refused with {ex.exc_name}", repo.fn(q))
+                r.violation("C19.RB", q, f"[{lo},{hi}) accepted", f"{kind} over the valid interval [{lo},{hi}) is refused with {ex.exc_name}", repo.where(q))
                 continue
             b = o.fields.get("bin")
             ok = isinstance(b, int) and not isinstance(b, bool) and o.fields.get("start") == lo and o.fields.get("end") == hi
             r.check(ok, "C19.RB", q, f"well-formed at [{'2^29' if lo == top else lo if lo < 10 ** 6 else '2^29-' + str(top - lo)},"
                     f"{'2^29' if hi == top else '2^29+' + str(hi - top) if hi > top else hi if hi < 10 ** 6 else '2^29-' + str(top - hi)})",
                     f"{kind} over [{lo},{hi}) is built with bin={b!r} (type {type(b).__name__}), start={o.fields.get('start')}, end={o.fields.get('end')}: "
-                    f"the stored bin must be one integer bin id", repo.fn(q))
+                    f"the stored bin must be one integer bin id", repo.where(q))
     r.floor("C19.RB", "objects built at extreme coordinates", n, 30)
 
 
